@@ -4,6 +4,7 @@ package main
 
 import (
 	"bytes"
+	"fmt"
 	"regexp"
 	"strconv"
 	"strings"
@@ -18,6 +19,11 @@ type rec struct {
 }
 
 // renderFasta lays records out as FASTA; wrap<=0 means one line per sequence.
+// nineDecimals renders t/10^9 (0 <= t <= 10^9) with nine decimals.
+func nineDecimals(t int) string {
+	return fmt.Sprintf("%d.%09d", t/1000000000, t%1000000000)
+}
+
 // chopNl removes the final line terminator (files whose last line is not terminated are read like any other).
 func chopNl(b []byte, on bool) []byte {
 	if !on {
@@ -191,6 +197,9 @@ func runSnps(vec map[string]interface{}) map[string]interface{} {
 		var aout bytes.Buffer
 		t := float64(thr) / 1000.0
 		ts := strconv.FormatFloat(t, 'f', 3, 64)
+		if t9 := gIntD(vec, "thr9", -1); t9 >= 0 {
+			ts = nineDecimals(t9) // a threshold written with nine decimals (e.g. a printed frequency fed back in)
+		}
 		t, _ = strconv.ParseFloat(ts, 64) // exactly what the CLI's flag parser would produce
 		err, ok := callWithDeadline(callDeadline, func() error {
 			return snps.SNPs(bytes.NewReader(refFa), bytes.NewReader(qFa), hard, true, t, &aout)
@@ -234,6 +243,12 @@ func runSnps(vec map[string]interface{}) map[string]interface{} {
 func runClosest(vec map[string]interface{}) map[string]interface{} {
 	qs := seqList(gList(vec, "queries"), "q", gBool(vec, "lowq"))
 	ts := seqList(gList(vec, "targets"), "t", gBool(vec, "lowt"))
+	for _, k := range intList(gList(vec, "lowts")) {
+		// some targets in lower case, the others not (alignments merged from two tools)
+		if k >= 0 && k < len(ts) {
+			ts[k].seq = strings.ToLower(ts[k].seq)
+		}
+	}
 	if m := intList(gList(vec, "maskt")); len(m) == 2 {
 		// soft-masked targets: a lower-case stretch
 		for i := range ts {
